@@ -52,18 +52,27 @@ pub fn run(o: &Opts, _deck: &str) -> String {
         let mut mx = f32::MIN_POSITIVE;
         for i in 0..pool {
             for j in 0..i {
-                let d = match kind {
+                let d = if q % 50 == 49 { 0.0 } else { match kind {
                     0 => ((pts[i].0 - pts[j].0).powi(2) + (pts[i].1 - pts[j].1).powi(2)).sqrt(),
                     1 => 0.02 + 0.98 * rng.unit() as f32,
                     _ => if rng.chance(0.8) { 1e-4 * (1.0 + rng.unit() as f32) } else { rng.unit() as f32 },
-                };
+                } };
                 mx = mx.max(d);
                 entries.push((i, j, d));
             }
         }
         let all = Abstraction::all(street);
         let raw: Vec<(i64, f32)> = entries.iter().map(|(i, j, d)| (i64::from(Pair::from((&all[*i], &all[*j]))), d / mx)).collect();
-        let metric = Metric::verif_from_entries(&raw);
+        // one instance in fifty: every distance zero (all centroids coincide), built through the public normalising
+        // constructor Metric::from
+        let metric = if q % 50 == 49 {
+            match catch(|| Metric::from(entries.iter().map(|(i, j, d)| (Pair::from((&all[*i], &all[*j])), *d)).collect::<std::collections::BTreeMap<Pair, f32>>())) {
+                Some(m) => m,
+                None => Metric::verif_from_entries(&raw),
+            }
+        } else {
+            Metric::verif_from_entries(&raw)
+        };
         let hm = hist(street, &mu);
         let hn = hist(street, &nu);
         let r = catch(|| {
